@@ -694,12 +694,17 @@ impl Printable for Stmt {
 				// TODO: keep end_comments, child.inline_trivia somehow, force multiple locals formatting in case of presence?
 				} else {
 					p!(out,str("local") >i nl);
-					for bind in binds {
+					let mut binds = binds.into_iter().peekable();
+					while let Some(bind) = binds.next() {
 						if bind.should_start_with_newline {
 							p!(out, nl);
 						}
 						format_comments(&bind.before_trivia, CommentLocation::AboveItem, out);
-						p!(out, {bind.value} str(","));
+						p!(out, {bind.value});
+						// No trailing comma: `local a = 1, ; e` is not accepted by the evaluator
+						if binds.peek().is_some() {
+							p!(out, str(","));
+						}
 						format_comments(&bind.inline_trivia, CommentLocation::ItemInline, out);
 						p!(out, nl);
 					}
